@@ -85,7 +85,7 @@ def crash_oracle(line, allow_exit=True):
 INF = "9" * 400
 BIG = "9" * 300
 POOL = ["NULL", "TRUE", "FALSE", "0", "-0", "-1", "0.5", "1", "2", "3", "2.9", BIG, INF, "(%s-%s)" % (INF, INF), "-" + INF,
-        '""', '"é"', '"a,b"', '"1.5"', '"true"', '" x "', "[]", "[1, 2, 3]", "[[1], \"s\"]", "l", "l2", "m", "r", "0.1+0.2"]
+        '""', '"é"', '"' + "é" * 20 + '"', '"' + "a" * 31 + 'é中"', '"a,b"', '"1.5"', '"true"', '" x "', "[]", "[1, 2, 3]", "[[1], \"s\"]", "l", "l2", "m", "r", "0.1+0.2"]
 PRELUDE = ('IMPORT MOD "MATH"\nIMPORT MOD "STRING"\nIMPORT MOD "MAP"\nIMPORT MOD "IO"\nIMPORT MOD "STYLE"\nIMPORT MOD "TIME"\n'
            'IMPORT MOD "ROBOT"\nl <- [10, 20, 30]\nl2 <- l\nm <- MAP()\nMAP_INSERT(m, 1, "one")\nr <- ROBOT_MAP("n.#")\n')
 
@@ -117,7 +117,7 @@ def sigs_from_generated():
     return out
 
 
-POOL_NUM = {"0": 0.0, "-0": -0.0, "-1": -1.0, "0.5": 0.5, "1": 1.0, "2": 2.0, "3": 3.0, "2.9": 2.9, BIG: float(BIG), INF: math.inf,
+POOL_NUM = {"0": 0.0, "-0": -0.0, "-1": -1.0, "0.5": 0.5, "1": 1.0, "2": 2.0, "3": 3.0, "2.9": 2.9, "2.5": 2.5, BIG: float(BIG), INF: math.inf,
             "(%s-%s)" % (INF, INF): math.nan, "-" + INF: -math.inf, "0.1+0.2": 0.1 + 0.2}
 
 
